@@ -296,6 +296,7 @@ def run_reconcile_property(ctx, depth, pid, pi, monitor, cmp_outcome=False, twea
         if faulty:
             ctx.count("fault:" + sc["ops"][0]["faults"][0]["kind"])
         sn = monitors.Snap(sc, obs)
+        sn.final = out.get("final")
         if sn.ok:
             ctx.count("policy:" + sn.set["policy"])
             ctx.count("strategy:" + sn.set["strategy"])
